@@ -13,8 +13,8 @@ open Node Raft Raft.CC RaftProps.C02 RaftProps.C05
 variable {cfg : JointConfig} {c0 : Nat} {h : List Sys}
 
 
-theorem sm_init (H : Hyp3 cfg c0 h) {s : Sys} (h0 : h[0]? = some s) : Sm h c0 0 s := by
-  have H2 := H.toHyp2
+theorem sm_init (H : Hyp3a cfg c0 h) {s : Sys} (h0 : h[0]? = some s) : Sm h c0 0 s := by
+  have H2 := H.toHyp2w
   have hinit := hist_init H.hist s h0
   obtain ⟨hnet, sto, hboot, _⟩ := H.init s h0
   have hq : ∀ v st, s.node v = some st → st.raft.msgs = [] := init_queue hinit
@@ -62,7 +62,7 @@ theorem sm_init (H : Hyp3 cfg c0 h) {s : Sys} (h0 : h[0]? = some s) : Sm h c0 0 
     rw [(hcm v st hv).2]; exact (hcm v st hv).1
 
 /-- **the main induction** -/
-theorem sall (H : Hyp3 cfg c0 h) : ∀ n, SAll h c0 n := by
+theorem sall (H : Hyp3a cfg c0 h) : ∀ n, SAll h c0 n := by
   intro n
   induction n with
   | zero =>
@@ -85,7 +85,7 @@ theorem sall (H : Hyp3 cfg c0 h) : ∀ n, SAll h c0 n := by
         a2s_step H ih ha hs, g1_step H ih ha hs, nctm_step H ih ha hs, ncts_step H ih ha hs,
         scm_step H ih ha hs⟩
 
-theorem sm_all (H : Hyp3 cfg c0 h) {n : Nat} {s : Sys} (hn : h[n]? = some s) : Sm h c0 n s :=
+theorem sm_all (H : Hyp3a cfg c0 h) {n : Nat} {s : Sys} (hn : h[n]? = some s) : Sm h c0 n s :=
   sall H n n s (Nat.le_refl _) hn
 
 
